@@ -32,7 +32,10 @@ Inductive case :=
 (* the (Name, Index) pairs of the integrations receiver.BuildReceiverIntegrations built for ONE receiver: they key
    the notification log (<receiver>/<name>/<idx>), so the chains of the fanout model are independent only if
    the pairs are pairwise distinct; expected = the pairs the configuration asks for (kind stem, position) *)
-| CRecvKeys (expected built : list (string * Z)).
+| CRecvKeys (expected built : list (string * Z))
+(* a real integration with a service limit in BYTES (webex): byte lengths of the text before and of the field sent
+   (the texts are 7-36 kB: only their lengths go through Coq; the contract is c20_truncate_bytes_spec) *)
+| CLimitBytes (limit in_len out_len : Z) (unchanged : bool).
 
 Inductive shown :=
 | STrunc (o : res (string * bool))
@@ -162,6 +165,8 @@ Definition check_case (c : case) : bool :=
     match oatt with [] => true | _ => beq (r_sent r) osent end
   | CFanout al start dl gs oevs ofailed ologged => beq (fanout_model al start dl gs) (oevs, ofailed, ologged)
   | CRecvKeys expected built => beq expected built
+  | CLimitBytes limit in_len out_len unchanged =>
+    (out_len <=? limit) && eqb unchanged (in_len <=? limit) && (if unchanged then out_len =? in_len else 3 <=? out_len)
   end.
 
 Definition prop_case (c : case) : bool :=
@@ -180,6 +185,7 @@ Definition prop_case (c : case) : bool :=
     retry_prop sr fc al start dl (retry_model sr fc al start dl script oatt)
   | CFanout al start dl gs _ _ _ => fanout_prop al start dl gs
   | CRecvKeys expected _ => bool_decide (NoDup expected)
+  | CLimitBytes limit _ _ _ => 0 <=? limit
   end.
 
 Definition show_case (c : case) : shown :=
@@ -192,4 +198,5 @@ Definition show_case (c : case) : shown :=
   | CFanout al start dl gs _ _ _ =>
     let '(e, f, l) := fanout_model al start dl gs in SFanout e f l
   | CRecvKeys expected built => SRecvKeys (bool_decide (NoDup built)) (beq expected built)
+  | CLimitBytes limit in_len _ _ => SRCheck (in_len <=? limit, true)
   end.
